@@ -79,6 +79,15 @@ def check_laws(case):
         bb = np.asarray(order.dominates(A[:k], np.tile(V[n - 1], (k, 1))))
         if bb.shape != (k,) or not np.array_equal(bb.astype(bool), exp[:k, n - 1]):
             return Result.violation("C12:batched", f"dominates(batch of {k}, batch of {k}) (dim {len(V[0])}): {bb.tolist()} expected {exp[:k, n - 1].tolist()}", labels)
+    # all-pairs form with two leading batch axes (broadcasting): if the call is accepted at all, it must give the relation
+    try:
+        BB = np.asarray(order.dominates(A[:, None, :], A[None, :, :]))
+    except Exception:  # noqa: BLE001 - a routine that rejects stacked batches does not contradict the property
+        labels.append("stacked-batch-rejected")
+        BB = None
+    if BB is not None and (BB.shape != (n, n) or not np.array_equal(BB.astype(bool), exp)):
+        return Result.violation("C12:batched", f"dominates(A[:,None,:], A[None,:,:]) shape {BB.shape} (expected {(n, n)}) "
+                                f"values {BB.astype(bool).tolist() if BB.ndim <= 2 else '...'} expected {exp.tolist()}", labels)
     off = ~np.eye(n, dtype=bool)
     distinct = np.array([[np.any(V[i] != V[j]) for j in range(n)] for i in range(n)])
     nt = bool((exp & off & distinct).any() and (~exp & off).any()) or boundary
